@@ -473,7 +473,11 @@ def assemble(unit_cfg, src="/repo/src"):
         out.add("\n".join(r["lines"]) + "\n")
         side.setdefault("raws", []).append({"name": r["name"], "line_start": base, "line_end": out.line - 1})
 
-    # canaries: the precondition of every contracted fn must be satisfiable (assert(false) must FAIL)
+    # canaries: the precondition of every contracted fn must be satisfiable (assert(false) must FAIL).
+    # They live in a second copy of the unit (same text + module `canary`) that is run with --verify-only-module canary,
+    # so that the main run can succeed completely and Verus runs its final passes (lifetime / erasure checks) too.
+    main_text_parts = list(out.parts)
+    main_lines = out.line
     out.add("// ---- canaries (each assert(false) must be rejected by the verifier)\n")
     out.add("pub mod canary { use super::*;\n")
     for n, (fi, fc, it) in enumerate(canary_specs):
@@ -505,7 +509,6 @@ def assemble(unit_cfg, src="/repo/src"):
             pre.append(t)
         line0 = out.line
         name = "canary_%d" % n
-        generics = fi.get("generics", "")
         out.add("pub proof fn %s(%s)\n    requires\n%s\n{ assert(false); }\n" % (name, ", ".join(params), "\n".join("        %s," % t for t in pre)))
         side["canaries"].append({"name": name, "fn": fi["key"], "line_start": line0, "line_end": out.line - 1})
     line0 = out.line
@@ -513,7 +516,8 @@ def assemble(unit_cfg, src="/repo/src"):
     side["canaries"].append({"name": "canary_axioms", "fn": "<prelude axioms>", "line_start": line0, "line_end": out.line - 1})
     out.add("}\n")
     out.add("} // verus!\nfn main() {}\n")
-    text = out.text()
-    side["sha256"] = hashlib.sha256(text.encode()).hexdigest()
-    side["lines"] = out.line
-    return text, side
+    canary_text = out.text()
+    main_text = "".join(main_text_parts) + "} // verus!\nfn main() {}\n"
+    side["sha256"] = hashlib.sha256(canary_text.encode()).hexdigest()
+    side["lines"] = main_lines
+    return main_text, canary_text, side
